@@ -72,6 +72,8 @@ def outcomeS : Outcome → Sexp
   | .refuse => .list [.atom "refuse"]
   | .internal => .list [.atom "internal"]
   | .off => .list [.atom "off"]
+  | .internalOrOk s => .list [.atom "internal-or-ok", fvS s]
+  | .internalOrOff => .list [.atom "internal-or-off"]
 
 def doseOf? : Sexp → Option DoseKind
   | .atom "bolus" => some .bolus | .atom "infusion" => some .infusion | .atom "datainfusion" => some .dataInfusion
@@ -109,9 +111,10 @@ def optNamesS : Option (List Name) → Sexp
 def defectS : Option DefectClass → Sexp
   | none => .atom "none"
   | some c => .atom (match c with
+    | .transitsStaleLag => "transits-stale-lagtime"
     | .transitsDropBio => "transits-drop-bioavailability"
     | .nodepotRenameClash => "nodepot-rename-clash"
-    | .transit1OnZeroOrder => "transit1-on-zero-order"
+    | .singleTransitNoDepot => "single-transit-without-depot"
     | .foOnSeqTransits => "fo-on-seq-transits"
     | .foOnSeqDropsLag => "fo-on-seq-drops-lagtime"
     | .zoOnTransits => "zo-on-transits"
@@ -130,7 +133,7 @@ def handle (req : Sexp) : Sexp :=
     match reqOf? r, fvOf? s with
     | some r, some s =>
       let o := setFV r s
-      .list [outcomeS o, Sexp.ofBool (Allowed r s o), defectS (defectOf r s), reqS (undo r s)]
+      .list [outcomeS o, Sexp.ofBool (Allowed r s o), defectS (defectOf r s), reqS (undo r s), Sexp.ofBool (additive r s)]
     | _, _ => bad
   | .list [.atom "canon", s] =>
     match fvOf? s with
